@@ -10,3 +10,11 @@ Theorem C13_each_connection_gets_its_own_replies : forall svc evs c,
   out_of c (snd (mrun svc (fun _ => ARun []) evs)) = spec_out svc (project c evs).
 Proof. exact fresh_connection_gets_spec. Qed.
 Print Assumptions C13_each_connection_gets_its_own_replies.
+
+(* tie: the functions this property's model describes by hand (not by translation) still have the pinned text; an
+   edit to one of them breaks this obligation and sends the check searching for a failing input *)
+From VL Require Import ShapeFacts.
+From VLG Require Import ShapeGen.
+Theorem C13_modelled_code_is_the_pinned_text : shapes_for_C13 = true.
+Proof. exact shapes_C13_ok. Qed.
+Print Assumptions C13_modelled_code_is_the_pinned_text.
